@@ -140,6 +140,10 @@ def run_contract(envr, c, func, recv, args, kwargs, clauses, fields=None, raises
     for n, a in kwargs.items():
         rec_fields[n] = a
         rec_fields['old_' + n] = old_kwargs[n]
+    if fi.node.args.vararg is not None and arg_names is None:
+        va = fi.node.args.vararg.arg
+        rec_fields[va] = tuple(args[len(names):])
+        rec_fields['old_' + va] = tuple(old_args[len(names):])
     rec_fields['result'] = result
     rec_fields['exc'] = exc.tname if exc is not None else None
     pre = label + ':' if label else ''
@@ -314,6 +318,11 @@ def replay_native(envr, spec, model, texts, clauses, raises, frame, fresh, names
     for n, a in kwargs.items():
         rec[n] = a
         rec['old_' + n] = old_kwargs[n]
+    fi_ = envr.program.funcs[spec.func]
+    if fi_.node.args.vararg is not None:
+        va = fi_.node.args.vararg.arg
+        rec[va] = tuple(args[len(names):])
+        rec['old_' + va] = tuple(old_args[len(names):])
     rec['result'] = result
     rec['exc'] = exc[0] if exc else None
 
